@@ -433,6 +433,133 @@ def f_spec_only_rejects(a):
         return canon_exc(e)
 
 
+# ---- C08 / C09: property oracles written against the translated table (facts), not against schwifty
+def _clean(v):
+    return re.sub(r"\s+", "", v).upper()
+
+
+def _num(s):
+    return int("".join(str(int(c, 36)) for c in s))
+
+
+def _iso_valid(iban):
+    row = FACTS["iban_rows"].get(iban[:2])
+    if row is None or len(iban) != row["iban_length"] or not iban[2:4].isdigit() or not iban.isascii():
+        return False
+    kinds = "".join(k * int(n) for n, k in re.findall(r"(\d+)!([nac])", row["bban_spec"]))
+    b = iban[4:]
+    cls = {"n": "0123456789", "a": "ABCDEFGHIJKLMNOPQRSTUVWXYZ"}
+    cls["c"] = cls["n"] + cls["a"]
+    if len(kinds) != len(b) or any(ch not in cls[k] for k, ch in zip(kinds, b)):
+        return False
+    return _num(b + iban[:4]) % 97 == 1 and 2 <= int(iban[2:4]) <= 98
+
+
+def f_spec_generate(a):
+    """OK when IBAN.generate behaves as C08 demands on this input, else what is wrong."""
+    cc, bank, account, branch = dec(a[0]), dec(a[1]), dec(a[2]), dec(a[3])
+    row = FACTS["iban_rows"].get(cc)
+    pos = (row or {}).get("positions") or {}
+    width = {k: pos.get(k, [0, 0])[1] - pos.get(k, [0, 0])[0] for k in ("bank_code", "branch_code", "account_code")}
+    given = {"bank_code": _clean(bank), "branch_code": _clean(branch), "account_code": _clean(account)}
+    try:
+        iban = str(IBAN.generate(cc, bank, account, branch))
+    except exceptions.SchwiftyException as e:
+        if row is None or not pos:
+            return "OK"
+        # an over-long component must raise its own class (when several things are wrong, any of their classes)
+        names = {"bank_code": "InvalidBankCode", "branch_code": "InvalidBranchCode", "account_code": "InvalidAccountCode"}
+        combined = width["bank_code"] + width["branch_code"]
+        is_combined = width["branch_code"] > 0 and len(given["bank_code"]) == combined
+        over = [k for k in ("bank_code", "branch_code", "account_code")
+                if len(given[k]) > width[k] and not (k == "bank_code" and is_combined)]
+        ok_classes = {names[k] for k in over}
+        if is_combined and branch:
+            ok_classes.add("InvalidBranchCode")
+        kinds = "".join(kk * int(n) for n, kk in re.findall(r"(\d+)!?([nace])", row["bban_spec"]))
+        cls = {"n": "0123456789", "a": "ABCDEFGHIJKLMNOPQRSTUVWXYZ", "e": " "}
+        cls["c"] = cls["n"] + cls["a"]
+        for k in ("bank_code", "branch_code", "account_code"):
+            s0 = pos.get(k, [0, 0])[0]
+            v = given[k].zfill(width[k])
+            if any(s0 + i < len(kinds) and ch not in cls[kinds[s0 + i]] for i, ch in enumerate(v[:max(width[k], 0)])) \
+                    or (k == "bank_code" and is_combined):
+                ok_classes.add(names[k])
+                if k == "bank_code" and is_combined:
+                    ok_classes.add("InvalidBranchCode")
+        if over and type(e).__name__ not in ok_classes:
+            return f"WRONG-CLASS raised {type(e).__name__} for over-long {over}"
+        return "OK"
+    except Exception as e:  # noqa: BLE001
+        return "CRASH " + type(e).__name__
+    if row is None or not pos:
+        return "RETURNED-WITHOUT-POSITIONS"
+    if not _iso_valid(iban):
+        return "INVALID-IBAN " + iban
+    b = iban[4:]
+    combined = width["bank_code"] + width["branch_code"]
+    exp = dict(given)
+    if width["branch_code"] > 0 and len(given["bank_code"]) == combined and combined > width["bank_code"]:
+        exp["bank_code"], split_branch = given["bank_code"][:width["bank_code"]], given["bank_code"][width["bank_code"]:]
+        if given["branch_code"] and given["branch_code"].zfill(width["branch_code"]) != split_branch:
+            return "DROPPED branch_code (combined bank code overrides it)"
+        exp["branch_code"] = split_branch
+    for k in ("bank_code", "branch_code", "account_code"):
+        v = exp[k]
+        if not v:
+            continue
+        s, e_ = pos.get(k, [0, 0])
+        if e_ - s == 0:
+            return f"DROPPED {k} (country has no such field)"
+        if len(v) > e_ - s:
+            return f"TRUNCATED {k}"
+        if b[s:e_] != v.zfill(e_ - s):
+            return f"ALTERED {k}: {b[s:e_]!r} != {v.zfill(e_ - s)!r}"
+    return "OK"
+
+
+def f_spec_generate_national(a):
+    """C09: what generate builds also passes national validation."""
+    try:
+        iban = IBAN.generate(dec(a[0]), dec(a[1]), dec(a[2]), dec(a[3]))
+    except exceptions.SchwiftyException:
+        return "OK"
+    except Exception as e:  # noqa: BLE001
+        return "CRASH " + type(e).__name__
+    try:
+        iban.validate(validate_bban=True)
+        return "OK"
+    except exceptions.SchwiftyException as e:
+        return "GENERATED-BUT-NATIONALLY-INVALID " + str(iban) + " " + type(e).__name__
+
+
+def f_spec_rebuild(a):
+    """C09: rebuilding the BBAN from the components read off a nationally valid IBAN reproduces it, apart from
+    positions that belong to no component."""
+    t = dec(a[0])
+    try:
+        o = IBAN(t, validate_bban=True)
+    except exceptions.SchwiftyException:
+        return "OK"
+    row = FACTS["iban_rows"].get(o.country_code)
+    pos = (row or {}).get("positions")
+    if not pos:
+        return "OK"
+    comps = {k: getattr(o.bban, k) for k in FACTS["components"]}
+    try:
+        b2 = str(BBAN.from_components(o.country_code, **comps))
+    except Exception as e:  # noqa: BLE001
+        return "REBUILD-RAISED " + type(e).__name__
+    b1 = str(o.bban)
+    covered = set()
+    for k, (s, e_) in pos.items():
+        covered |= set(range(s, e_))
+    diff = [i for i in range(len(b1)) if i in covered and (i >= len(b2) or b1[i] != b2[i])]
+    if len(b1) != len(b2) or diff:
+        return f"REBUILT-DIFFERS {b1} -> {b2} at {diff}"
+    return "OK"
+
+
 # property oracles: the implementation side of a spec comparison
 def _verdict(make, make_unvalidated):
     """ACCEPT | <schwifty class> | CRASH <cls> | INCONSISTENT <what>  (constructor, validate(), is_valid)"""
